@@ -268,6 +268,13 @@ func c16TieCases() []*pairCase {
 	add("Linux", "linux-rule-differs-in-several-options",
 		lin("-A INPUT -s 10.1.1.1 -d 10.2.2.2 -p tcp --dport 80 -j ACCEPT"),
 		map[string]string{"router": lin("-A INPUT -s 10.1.1.9 -d 10.2.2.9 -p udp --dport 81 -j c1")})
+	// Every spelling the rule normaliser rewrites, on one side only; the
+	// device is equal, so one changed answer shows an order dependent rewrite.
+	add("Linux", "linux-equivalent-spellings",
+		lin("-A INPUT -p ipv6-icmp -j ACCEPT", "-A INPUT -p vrrp -j ACCEPT", "-A INPUT -s 10.1.1.1/32 -p tcp -m tcp --dport 80 -j ACCEPT",
+			"-A INPUT -p udp -m udp --sport 1024:65535 -j c1", "-A c1 -p 58 -j ACCEPT", "-A c2 -p icmp -m icmp --icmp-type 8 -j ACCEPT"),
+		map[string]string{"router": lin("-A INPUT -p ipv6-icmp -m ipv6-icmp -j ACCEPT", "-A INPUT -p 112 -j ACCEPT", "-A INPUT -s 10.1.1.1 -p TCP --dport 80 -j ACCEPT",
+			"-A INPUT -p udp --sport 1024: -j c1", "-A c1 -p ipv6-icmp -m ipv6-icmp -j ACCEPT", "-A c2 -p icmp --icmp-type 8 -j ACCEPT")})
 	add("Linux", "linux-raw-adds-several-tables-and-chains",
 		lin("-A INPUT -j c1"),
 		map[string]string{"router": lin("-A INPUT -j c1"),
